@@ -293,6 +293,10 @@ func (d *drv) craft(r *lib.Rng, q *parsed, it item, k int, remoteHost []byte) []
 	case 6: // an 8-byte host address
 		h.srcRaw = append(h.srcRaw, h.srcRaw...)[:8]
 		h.srcType = 1
+	case 7: // the server's address bytes declared as a service address (T4Svc / a 16-byte non-IP type): not the host
+		h.srcType = h.srcType | 4
+	case 8: // the same for the destination
+		h.dstType = h.dstType | 4
 	}
 	h.payload = ntpResponse(r, q.udp.Payload, k, it.ntp)
 	if it.scmp != 0 {
@@ -626,7 +630,7 @@ func genItem(r *lib.Rng, tags tagset, auth bool) item {
 			tags["resp-ntp-bad"] = true
 		}
 		if r.Intn(7) == 0 {
-			it.addr = 1 + r.Intn(6)
+			it.addr = 1 + r.Intn(8)
 			tags["resp-addr"] = true
 		}
 		if r.Intn(20) == 0 {
